@@ -28,13 +28,16 @@ def pipeline(run):
 
 def check_C14(run):
     summ, obs = pipeline(run)
+    # struct-method sources (every parameter is a context, named or not) live in the struct family (Fields.tla XProgs method-ctx)
+    import fam_struct
+    fam_struct.pipeline(run)
     n = 4 if run.tier == "thorough" else 3
     kinds = set()
     for r in read_ndjson(obs):
         kinds.add((tuple(r["params"]), tuple(r["results"]), r["gen"], r["got"]))
         if len(run.samples) < 5 and r["gen"] == "ok" and len(r["params"]) >= 2:
             run.samples.append({k: r[k] for k in ("params", "results", "gen", "apiOK", "got", "want")})
-    run.assumptions = ["converter interface methods only (extend / map|FUNC / default / struct-method uses share method.Parse but are not enumerated here)",
+    run.assumptions = ["converter interface methods and custom functions; of the struct-method use only Name(Loc) / Name(l Loc) with and without an available context (four programs of the struct family); map|FUNC and default uses share method.Parse but are not enumerated here",
                        "a parameter that is both the update argument and a declared context is not enumerated (the statement does not fix the precedence)",
                        "'emitted with parameters in the declared order' is observed by compiling `var _ p.C = &gen.CImpl{}`"]
     return run.finish("every signature with 0..%d parameters over {source, second plain type, declared context, regex-matched context, the converter interface, update target} (each kind at most once) x 9 result lists; "
